@@ -1,6 +1,11 @@
 package c18
 
-import "github.com/sdcio/yang-parser/data/datanode"
+import (
+	"fmt"
+	"strings"
+
+	"github.com/sdcio/yang-parser/data/datanode"
+)
 
 // Exports for other harnesses that quantify over "all schemas x all valid data trees".
 
@@ -71,5 +76,73 @@ func Nodes(kids []*S) []*S {
 		}
 		out = append(out, Nodes(k.Kids)...)
 	}
+	return out
+}
+
+// RenameShared returns a copy of the forest in which names are unique among
+// siblings only, as in real modules: the first data node of every scope that is
+// not a list entry is called "k" (the name of every list key), the others n1,
+// n2, ... per scope.  Choice defaults and unique paths follow the renaming.
+// The generator's own names are unique in the whole schema, which hides
+// anything that looks a node up by name in the wrong scope.
+func RenameShared(kids []*S) []*S {
+	out := Clone(kids)
+	m := map[string]string{}
+	var scope func(kids []*S, key *S)
+	scope = func(kids []*S, key *S) {
+		i := 0
+		for _, n := range dataNodes(kids) {
+			if n == key {
+				continue
+			}
+			if key == nil && i == 0 {
+				m[n.Name] = "k"
+			} else {
+				m[n.Name] = fmt.Sprintf("n%d", i)
+			}
+			i++
+		}
+		for _, n := range dataNodes(kids) {
+			switch n.Kind {
+			case "container":
+				scope(n.Kids, nil)
+			case "list":
+				scope(n.Kids, n.Kids[0])
+			}
+		}
+	}
+	scope(out, nil)
+	var apply func(kids []*S, key *S)
+	apply = func(kids []*S, key *S) {
+		for _, n := range kids {
+			if n != key {
+				if nn, ok := m[n.Name]; ok {
+					n.Name = nn
+				}
+			}
+			if n.Kind == "choice" {
+				if nn, ok := m[n.Default]; ok {
+					n.Default = nn
+				}
+			}
+			for ui, u := range n.Unique {
+				for pi, p := range u {
+					parts := strings.Split(p, "/")
+					for ci, comp := range parts {
+						if nn, ok := m[comp]; ok {
+							parts[ci] = nn
+						}
+					}
+					n.Unique[ui][pi] = strings.Join(parts, "/")
+				}
+			}
+			if n.Kind == "list" {
+				apply(n.Kids, n.Kids[0])
+			} else {
+				apply(n.Kids, key)
+			}
+		}
+	}
+	apply(out, nil)
 	return out
 }
